@@ -18,7 +18,7 @@ TXN_NOTE = ("Trusted: the harness seams (store RPC wrapper, PD wrapper, virtual 
 
 CHECKS["C01"] = dict(
   engine="parksched", category="model_checking", design="5/C01",
-  technique="stateless model checking of the implementation: controlled scheduler over real goroutines, exhaustive DFS over seam-event interleavings with a preemption bound, SI auditor on every execution",
+  technique="stateless model checking of the implementation: controlled scheduler over real goroutines, exhaustive DFS over seam-event interleavings with a preemption bound (plus one topology deviation - real region split / NotLeader at any RPC - in the topology suite), SI auditor on every execution",
   text="For every pair of small transaction programs of the table (reads, writes, inserts, deletes, pessimistic locks over two colliding keys; layouts with and without a region split) every interleaving of the two clients' TSO requests, store RPCs (incl. background), API boundaries and virtual back-off timers with <= P preemptions is executed on the real client code, and the recorded history is audited against the MVCC ground truth (read values, lost updates, insert semantics, real-time order, one commit ts). Bounded-exhaustive, no sampling; a time budget may cut the table (reported as exhaustive:false with the covered part).",
   note=TXN_NOTE)
 CHECKS["C02"] = dict(
@@ -33,23 +33,23 @@ CHECKS["C03"] = dict(
   note=TXN_NOTE)
 CHECKS["C17"] = dict(
   engine="seqx", category="model_checking", design="5/C17",
-  technique="explicit-state BFS over the real Latches at method and slot-critical-section granularity (canonical state = white-box slot dump), plus enumeration of Lock/UnLock arrival orders through the real scheduler goroutine",
+  technique="explicit-state BFS over the real Latches at method and slot-critical-section granularity (canonical state = white-box slot dump), from the empty state and from generated states with >= 5 nodes per slot and oracle-scale timestamps around the expiry window (recycling), plus enumeration of Lock/UnLock arrival orders through the real scheduler goroutine",
   text="All reachable states of <= 4 transactions x <= 3 keys over slot layouts that force collisions, every relative order of start/commit timestamps, every order of first-acquire / wake-up / unlock steps, checked against a ghost holder map (exclusivity, exact staleness, no stuck waiter in any terminal state). Part (b) drives the real LatchesScheduler goroutine through every order of caller steps.",
   note="Trusted: white-box accessors (tiny, add-only); recycle() kept out by pool size; keys within one Lock distinct; part (b) quiescence detection under GOMAXPROCS=1. Randomized stress named in the property is replaced by deeper exhaustive bounds.")
 
 CHECKS["C04"] = dict(
   engine="parksched", category="model_checking", design="5/C04",
-  technique="passive request-stream monitor evaluated on every execution of exhaustive enumerations on the implementation (single faults / region errors / real splits at every RPC, one-key batches, heart-beat ticker fired at every point, program pairs under a preemption bound)",
+  technique="passive request-stream monitor evaluated on every execution of exhaustive enumerations on the implementation (single faults / region errors / real splits at every RPC, one-key batches, heart-beat ticker fired at every point incl. programs whose primary is chosen anew, program pairs under a preemption bound)",
   text="The Percolator ordering and timestamp rules of the property are an automaton over the recorded request/response stream; it is run on every execution produced by four bounded-exhaustive enumerations of the real client (see evidence rule). Every explored stream is an implementation run.",
   note=TXN_NOTE + " The property text is cut at 2048 characters; its last clause is read as the pessimistic-check flag.")
 CHECKS["C06"] = dict(
   engine="parksched", category="model_checking", design="5/C06",
-  technique="exhaustive enumeration of transaction programs (lock-call options, aggressive-locking stages, commit/rollback) x contending transaction, all seam interleavings under a preemption bound on the implementation; invariant: no lock of an ended transaction once drained",
+  technique="exhaustive enumeration of transaction programs (lock-call options, aggressive-locking stages, commit/rollback) x contending transaction, all seam interleavings under a preemption bound on the implementation; 1PC / async attempts that fall back to 2PC included; invariant: no lock of an ended transaction once drained",
   text="All programs of one transaction up to the depth bound from the per-mode alphabet, each against four contenders (none, optimistic writer, pessimistic locker, deadlock shape), every interleaving with <= P preemptions, no message lost; after everything drained and without moving the clock past any TTL the store is scanned for locks of ended transactions.",
   note=TXN_NOTE)
 CHECKS["C09"] = dict(
   engine="seqx", category="model_checking", design="5/C09",
-  technique="explicit-state BFS over sequences of topology changes, cache manipulations, stale PD answers and every lookup API on the real RegionCache over the mock cluster (canonical state = topology + white-box cache dump)",
+  technique="explicit-state BFS over sequences of topology changes, cache manipulations, stale PD answers and every lookup API on the real RegionCache over the mock cluster (canonical state = topology + white-box cache dump), cache states incl. cold / warm / invalidated / TTL-expired / scheduled-for-reload",
   text="Breadth-first search to the depth bound over an alphabet of 87-207 operations from two root topologies, plain and mem-comparable PD codecs; after every operation all lookup results are checked for containment / gap-free coverage / grouping, the cache index for regression, and a Get for every key must converge to the true leader.",
   note="Trusted: mock cluster as ground truth (epochs patched to TiKV rules after split/merge), white-box accessors, background goroutines replaced by explicit explorer operations, back-off via the repo's skip-sleep failpoint.")
 CHECKS["C10"] = dict(
@@ -59,7 +59,7 @@ CHECKS["C10"] = dict(
   note="Trusted: scripted client / liveness probe, the repo's skip-sleep failpoint for back-off (accounting stays real), deterministic jitter shim for config/retry/config.go; one SendReqCtx call per run.")
 CHECKS["C20"] = dict(
   engine="seqx", category="model_checking", design="5/C20",
-  technique="explicit-state BFS over operation sequences of the real Backoffer (virtual clock and jitter as enumerated environment answers) against a reference accountant",
+  technique="explicit-state BFS over operation sequences of the real Backoffer (virtual clock and jitter as enumerated environment answers) against a reference accountant, plus exhaustive long chains (128+ back-offs) of every built-in and synthetic kind with a per-step oracle",
   text="All sequences up to the depth bound of Backoff kinds, per-call maxima, Clone/Fork/UpdateUsingForked/Reset, cancel/kill between and during sleeps, over two budgets and two weights, jitter in {min,max}; after each operation totals, per-kind accounting, error kind on exhaustion and sleep bounds are compared with an integer reference model.",
   note="Trusted: vtime/vrand shims injected by import rewriting of config/retry; excluded kind's cap lowered with the package's test setter so exhaustion is reachable; merge specified as copy onto the parent chain.")
 
@@ -97,25 +97,25 @@ CHECKS["C13"] = dict(
   note="Trusted: scripted PD (issue and deliver are separate transitions), atomic shim (rt/c13atomic) and ticker-by-scenario clock shim (rt/c13x/ctime) injected by import rewriting of oracle/oracles/pd.go; sync.Map / mutex / singleflight internals are not points.")
 CHECKS["C14"] = dict(
   engine="parksched", category="model_checking", design="5/C14",
-  technique="crash-point enumeration of two victim transactions followed by the real GC lock resolution as an explored actor (scan limit 1..3, region split before any of its RPCs), under the controlled scheduler; plus exhaustive grids on the real range task / delete-range task / safe-point check",
+  technique="crash-point enumeration of two victim transactions followed by the real GC lock resolution as an explored actor (scan limit 1..3, region split before any of its RPCs), under the controlled scheduler; plus exhaustive grids on the real range task / delete-range task (static layouts and a region split injected between lookup and delivery of each request) / safe-point check (learned before and during the read)",
   text="Lock populations are produced by crashing two victims at every combination of seam events within the fault budget (committed primary with unresolved secondaries, rolled back, pending, async-commit, 1PC, pessimistic locks), then tikv.ResolveLocksForRange runs with every scan limit and an optional split; after a successful pass no lock <= safe point remains, committed versions are unchanged and every victim is all-or-nothing and ack-consistent. RunOnRange is run over every layout x range x concurrency x regions-per-task x failing sub-range, DeleteRangeTask over the same grid against a map, snapshot reads at sp-1 / sp / sp+1.",
   note=TXN_NOTE + " GC starts only after every transaction below the safe point ended or crashed; lock-only keys are avoided on unistore (it keeps no commit record for them).")
 
 CHECKS["C05"] = dict(
   engine="parksched", category="model_checking", design="5/C05",
-  technique="crash-point enumeration of two writers to produce every kind of leftover lock, then an exhaustive grid over the real snapshot API (timestamps x access paths x bounds x batch sizes x key-only x warm/cold x SetSnapshotTS x split before each RPC) compared with the MVCC truth of the resolved final state",
+  technique="crash-point enumeration of two writers to produce every kind of leftover lock, then an exhaustive grid over the real snapshot API (timestamps x access paths x bounds x batch sizes x key-only x warm/cold x SetSnapshotTS x split before each RPC) compared with the MVCC truth of the resolved final state; plus reads under enumerated store faults (one deviation at any read RPC, both batch-get paths, one preemption) and a reader explored as an actor against a dead async-commit writer",
   text="MVCC histories come from crashing two writers at every combination of <= 2 store RPCs over committed base data (pending, committed-primary-unresolved-secondaries, rolled back, pessimistic, async-commit / 1PC locks, locks of later transactions); on each distinct history every snapshot timestamp between its events is read through point get, batch get of every subset, forward and reverse scans over every bound pair with batch sizes 2 and 3 and key-only, repeated on the warm snapshot, after SetSnapshotTS to every other timestamp and back, and with a region split before each of the first RPCs; every answer equals the MVCC truth.",
   note=TXN_NOTE + " Unbounded reverse scans are the recorded known finding keyed under C01; on unistore reverse / unbounded scans are left out (store-side artefacts).")
 
 CHECKS["C16"] = dict(
   engine="parksched", category="model_checking", design="5/C16",
-  technique="exhaustive enumeration of pipelined-transaction programs (set/delete/get/batch-get/flush/flush-wait, commit or rollback) x layouts with flushed keys on region borders, flush completion interleaved with the following calls under a preemption bound (thorough: a lost flush RPC), on the real pipelined KVTxn over unistore",
+  technique="exhaustive enumeration of pipelined-transaction programs (set/delete/get/batch-get/flush/flush-wait, commit or rollback) x layouts with flushed keys on region borders, flush completion interleaved with the following calls under a preemption bound (thorough: a lost flush RPC), plus a resolver that expires and rolls back the flushed locks at every decision point, on the real pipelined KVTxn over unistore",
   text="Every program to the depth bound ending in commit or rollback on three layouts; every call is a scheduling point so that a running flush completes before or after the next calls; reads must return the latest program-order write at any tier, each mutation is part of exactly one flush generation, generations increase with at most one in flight, and after commit / rollback and drain every flushed key has the primary's outcome and no lock of the transaction is left.",
   note=TXN_NOTE + " unistore is the only backend (the in-repo mock has no Flush / BufferBatchGet); flush and resolve concurrency 1. The memory-level PipelinedMemDB harness of DESIGN (a) is subsumed by driving the real transaction.")
 
 CHECKS["C18"] = dict(
   engine="envx", category="model_checking", design="5/C18",
-  technique="stateless DFS over environment events (submit / answer in any order / stream drop / cancel / time-out / Close) on the real RPCClient over real gRPC on an in-memory listener with a scripted server; virtualised time and contexts inside the batch client; quiescence by scheduler metrics cross-checked with stack snapshots",
+  technique="stateless DFS over environment events (submit / answer in any order / stream drop / cancel / time-out / Close) on the real RPCClient over real gRPC on an in-memory listener with a scripted server; virtualised time and contexts inside the batch client; finite and default concurrency limits, healthy-store liveness oracle; quiescence by scheduler metrics cross-checked with stack snapshots",
   text="All event sequences with at most F deviation events for 2-3 (thorough 4) callers and several client configurations (concurrency limit, two connections, forwarding, async API); every call must return exactly once with its own payload or an allowed error, a stream failure must not fail calls of another stream, answered calls return, nothing stays blocked after its time-out or after Close, no panic. Level 1 of DESIGN C18: client-internal interleavings between two events are left to the Go scheduler.",
   note="Trusted: scripted server, vtime/vctx shims injected by import rewriting of three files of internal/client, real gRPC internals (not owned; executions longer than 0.5 s are discarded and repeated, a violation needs 3 audited reproductions). A call pending until its own time-out after another stream failed is recorded as an observation only (the property promises no more).")
 
